@@ -35,7 +35,7 @@ Next == /\ Len(hist) < Depth
         /\ UNCHANGED init
         /\ \/ \E call \in SimCalls(ps) : \E o \in Outcomes(env, ps, call) :
                  /\ ps' = o.ps2 /\ env' = env
-                 /\ hist' = Append(hist, call)
+                 /\ hist' = Append(hist, IF HasEndpoint(call) THEN Via(call, RandomElement({"go", "rpc"})) ELSE call)
            \/ \E lf \in LogFailSet \ {env.logfail} :  \* the consensus component starts / stops failing operations
                  /\ env' = [env EXCEPT !.logfail = lf] /\ ps' = ps
                  /\ hist' = Append(hist, [op |-> "logfail", logfail |-> lf])
